@@ -765,7 +765,7 @@ def statements(rng, tier):
     classes = {"Lz": lambda: Hole("z"), "Lq": lambda: Hole("q"), "i": lambda: Bi(rot(["int", "long"], st, "i")), "u": lambda: Bi(rot(["unsigned", "unsigned long"], st, "u")),
                "d": lambda: Bi("double"), "Ez": lambda: E("z"), "Eq": lambda: E("q")}
     cty = {"Lz": "z", "Lq": "q", "i": None, "u": None, "d": None, "Ez": "z", "Eq": "q"}
-    reps = 3 if thorough else 1
+    reps = 6 if thorough else 1
     for _ in range(reps):
         for ca in classes:
             for cb in classes:
@@ -793,8 +793,24 @@ def statements(rng, tier):
                     shape = Bin(op, ish, o) if side == 0 else Bin(op, o, ish)
                     v = list(alias_variants(shape, T)); tree, tgt, tag = rng.choice(v)
                     add("assign", tgt=(T, tgt), e=tree, tags=("d2", "oppair", "alias:" + tag))
+    # ---- depth 3, exhaustive slices (thorough): every operator triple on a left-nested and on a right-nested chain of leaves,
+    #      the target being the innermost leaf
+    if thorough:
+        for T in ("z", "q"):
+            ops = binops(T)
+            for o1 in ops:
+                for o2 in ops:
+                    for o3 in ops:
+                        for left in (True, False):
+                            inn = Bin(o3, Hole(T), Hole(T))
+                            mid = Bin(o2, inn, Hole(T)) if left else Bin(o2, Hole(T), inn)
+                            shape = Bin(o1, mid, Hole(T)) if left else Bin(o1, Hole(T), mid)
+                            hs = holes(shape); n = len(hs)
+                            sl = [1, 2, 0, 1] if T == "q" else [1, 2, 3, 1]
+                            tgt = sl[0] if left else sl[2]          # an innermost leaf of the chain
+                            add("assign", tgt=(T, tgt), e=fill(shape, sl, iter(range(n))), tags=("d3", "slice", "alias:inner-leaf"))
     # ---- depth 3 and 4: sampled (thorough: many more)
-    for d, n in ((3, 2500 if thorough else 500), (4, 1200 if thorough else 250)):
+    for d, n in ((3, 12000 if thorough else 500), (4, 6000 if thorough else 250)):
         k = 0
         while k < n:
             T = rng.choice(["z", "z", "q"])
@@ -865,7 +881,7 @@ def statements(rng, tier):
         v = list(alias_variants(shape, "f"))
         for tree, tgt, tag in (v if thorough else rng.sample(v, min(2, len(v)))):
             add("assign", tgt=("f", tgt), e=tree, tags=("mpf", "d1", "alias:" + tag))
-    k = 0; nf = 900 if thorough else 150
+    k = 0; nf = 4000 if thorough else 150
     while k < nf:
         d = rng.choice([2, 2, 3]); shape = rand_shape(rng, "f", d, MAIN_BI)
         if not welltyped(shape) or len(builtins(shape)) > NB or not holes(shape): continue
